@@ -471,6 +471,23 @@ def check_noise(ctx, F):
                    where=f.where, construct="add_awgn_snr: sigma is not sqrt(||Q||^2 / (snr * size)) / result is not Q + noise",
                    loc=f.loc(), detail=short(bad))
     ctx.require_instances("C18.D4.noise", 4 * len(shapes))
+    # "in expectation": the requested SNR is a statement about the distribution of the noise; a generator that the routine itself
+    # seeds with a constant adds the SAME sample on every call with rng=None (the achieved SNR is then off by a fixed, size-dependent
+    # amount and averaging over calls does not converge)
+    import ast as _ast
+    consts = []
+    for nd in _ast.walk(f.node):
+        if isinstance(nd, _ast.Call):
+            fn = nd.func
+            nm = fn.attr if isinstance(fn, _ast.Attribute) else (fn.id if isinstance(fn, _ast.Name) else "")
+            if nm in ("default_rng", "RandomState", "seed", "Generator", "PCG64", "MT19937", "SeedSequence"):
+                args = list(nd.args) + [k.value for k in nd.keywords]
+                if args and all(isinstance(a_, _ast.Constant) and isinstance(a_.value, (int, float)) and not isinstance(a_.value, bool) and a_.value is not None
+                                for a_ in args):
+                    consts.append((nm, nd.lineno))
+    ctx.ob("C18.D4.noise-stream", "add_awgn_snr: the routine does not seed its own generator with a constant", not consts,
+           f"generator seeded with a literal constant inside the routine ({consts}): every call without an explicit generator adds the "
+           f"identical noise sample", where=f.where, construct="add_awgn_snr: constant-seeded noise generator", loc=f.loc())
 
 
 def run(ctx):
